@@ -436,8 +436,13 @@ def generate(seed, prop, tier, index=0):
     p = period_us(cfg)
     g = GRID_US if cfg["dyadic"] else 1000
 
+    base_faults = rng.random() < 0.25      # in a quarter of the runs injected faults do not derive from Exception
+
     def add(site, visit, *acts):
-        ops.append({"site": site, "visit": visit, "acts": [list(a) for a in acts]})
+        acts = [list(a) for a in acts]
+        if base_faults:
+            acts = [["raise", "base"] if a == ["raise"] else a for a in acts]
+        ops.append({"site": site, "visit": visit, "acts": acts})
 
     # ---- driver-station schedule: packets at wait visits (mode sessions with arbitrary dwell)
     k = 0
@@ -766,6 +771,14 @@ class SimFault(Exception):
         self.site, self.visit = site, visit
 
 
+class SimFaultBase(BaseException):
+    """an exception that does not derive from Exception (like asyncio.CancelledError or SystemExit raised in user code)"""
+
+    def __init__(self, site, visit):
+        super().__init__(f"injected non-Exception fault at {site}#{visit}")
+        self.site, self.visit = site, visit
+
+
 class _Sim:
     def __init__(self, world, cfg, ops):
         self.world = world
@@ -919,7 +932,7 @@ class _Sim:
                 if self.cur_owner is not None:
                     self.cur_owner.done()
             elif k == "raise" and not at_wait:
-                do_raise = True
+                do_raise = "base" if (len(a) > 1 and a[1] == "base") else True
         return do_raise
 
     def ctor(self, obj, clsname):
@@ -969,11 +982,14 @@ class _Sim:
                 extra = self._inj_ok()
             self.log.append([site, n, self.world.now_us(), self.mode_sub.get(), self.snapshot(), extra])
             acts = list(self.ev.get((site, n), ())) + list(self.ev.get((site, "*"), ()))
-            if acts and self.apply(acts):
-                self.fault("callback_raises")
-                do_raise = True
+            r = self.apply(acts) if acts else False
+            if r:
+                self.fault("callback_raises_non_Exception" if r == "base" else "callback_raises")
+                do_raise = r
         except Exception:
             self.harness_fail()
+        if do_raise == "base":
+            raise SimFaultBase(site, n)
         if do_raise:
             raise SimFault(site, n)
         return n
@@ -1297,7 +1313,7 @@ def execute(plan, trace=False):
         try:
             robot.startCompetition()
             result_box["outcome"] = ("returned",)
-        except SimFault as f:
+        except (SimFault, SimFaultBase) as f:
             result_box["outcome"] = ("raised", f.site, f.visit)
         except Exception as e:  # noqa
             import traceback
